@@ -602,7 +602,13 @@ func c18Ops(c *Ctx, g *ResGen, tn string, res fhir.Resource) []patchOp {
 			}
 		}
 		// a real criterion: the elements whose code / string / reference child has a given text (taken from one of them)
-		if len(nodes) >= 1 && c.rng.Intn(2) == 0 {
+		// (only over elements of ONE type: the values of a choice element are of different types, and what `child` means on
+		// each of them — a scalar `value` of a primitive, no such element at all — is not what this oracle reads off)
+		sameType := true
+		for _, n := range nodes {
+			sameType = sameType && n.val.ProtoReflect().Descriptor().FullName() == nodes[0].val.ProtoReflect().Descriptor().FullName()
+		}
+		if len(nodes) >= 1 && sameType && c.rng.Intn(2) == 0 {
 			pick := nodes[c.rng.Intn(len(nodes))]
 			if child, text, ok := someTextChild(c, pick.val); ok && !strings.ContainsAny(text, "'\\") {
 				for _, neg := range []bool{false, true} {
